@@ -60,6 +60,16 @@ checks["C09"]=dict(
    note="Trusted: text/template/parse trees of cog's own templates; the text of the emitted Go builder is inspected with the actions replaced by placeholders (no Go parsing of emitted code). Behaviour of generated builders (an option differs exactly at its target, Python semantics) is not decided.",
    technique="must-call-in-order on the Go call sites + template-AST rules (range/if/template nodes) + operator table",
    design="§3.C09")
+checks["C08"]=dict(
+   text="Generator-side necessary conditions decided on the parsed Go templates and the Go helper they share: the recursive validation and strict-decoding templates reach every depth (array/map value types, nullable values, every field, referenced structs and scalar aliases) and end in an uncommented sentinel; the pruning predicate resolvesToConstraints agrees with the template kind by kind; every constraint operator a parser produces is translated; the strict decoder consumes each declared key, reports every remaining key and emits the 'missing'/'null' errors under exactly Required∧Default==nil / Required∧¬Nullable.",
+   note="Trusted: text/template/parse trees; the emitted Go text is not parsed. 'If and only if' on concrete documents, error paths and encoding/json behaviour are not decided (they need generated code to run).",
+   technique="template-AST traversal-completeness rules (if-chains, recursive template calls and their dict arguments) + sibling agreement with the Go predicate + operator table",
+   design="§3.C08/C13")
+checks["C13"]=dict(
+   text="Generator-side necessary conditions for the generated Equals, decided on the parsed equality template: the recursion reaches every depth (array/map value types, nullable values with a nil-ness comparison, every field of inline structs without any filter, referenced structs through their own Equals), leaf branches return false on a difference, collections compare lengths, the dispatch ends in an uncommented sentinel, and Equals is generated for every struct object.",
+   note="Trusted: text/template/parse trees. Reflexivity/symmetry/transitivity and agreement with JSON equality on concrete values are not decided.",
+   technique="template-AST traversal-completeness and leaf rules",
+   design="§3.C08/C13")
 pending = {}
 props = [json.loads(l) for l in open(os.path.join(here, "properties.jsonl"))]
 m = {
